@@ -75,3 +75,11 @@ Fixpoint upd_at (l : list N) (i : N) (x : N) : list N :=
   | [] => []
   | y :: r => if i =? 0 then x :: r else y :: upd_at r (i - 1) x
   end.
+
+(** [lo..hi] as the list of its elements; [(lo..hi).rev()] is [rev] of it *)
+Definition range_up (lo hi : N) : list N :=
+  map (fun k => lo + N.of_nat k) (seq 0 (N.to_nat (hi - lo))).
+
+(** [Result::unwrap] / [expect]: an [Err] becomes a panic *)
+Definition unwrap_res {A} (o : outcome A) : outcome A :=
+  match o with Ok a => Ok a | _ => Panic end.
